@@ -183,8 +183,9 @@ def harness(cfg, ns):
         rd = [d_ for k_, d_ in ch.dialects if k_ == "reader"]
         o = [Obl("reader-and-writer-use-the-same-csv-dialect(the channel's round-trip contract)", len(wd) == 1 and len(rd) == 1 and wd[0] == rd[0], rz),
              # the csv module only guarantees the round trip of fields holding line ends when the files are opened with newline=''
-             Obl("csv-files-opened-with-newline=''(line ends inside fields are the csv module's business)",
-                 len(ch.open_options) >= 2 and all(k.get("newline") == "" for _, _, k in ch.open_options), rz),
+             # (demanded of the READING side only: that is where universal newlines rewrite a field on this platform)
+             Obl("csv-file-read-with-newline=''(line ends inside fields are the csv module's business)",
+                 any("w" not in md for _, md, _ in ch.open_options) and all(k.get("newline") == "" for _, md, k in ch.open_options if "w" not in md), rz),
              Obl("one-row-per-unit", len(rows) == c.num_units, rz),
              Obl("row==(annotator,label,start,end)", all(len(r) == 4 and isinstance(r[0], str) and (r[1] is None or isinstance(r[1], str)) for r in rows), rz),
              Obl("from_csv(to_csv(c))==c", eq1 and eq2, rz),
